@@ -72,20 +72,23 @@ class StdinWriter(Contract):
     def on_write(self, I, data):
         m = I.ghost.get("current")
         I.ghost["writes_this_iteration"] = I.ghost.get("writes_this_iteration", 0) + 1
-        js = None
-        for f in reversed(I.frames):
-            if "json_str" in f.vars:
-                js = f.vars["json_str"]
-                break
         nm = "C06._stdin_writer.write"
-        if js is None or m is None:
-            I.oblige(f"{nm}.is_the_frame_of_the_message_being_processed", z3.BoolVal(False))
+        # the written text is recovered from the bytes themselves (utf8_enc is the only producer of bytes here), never
+        # from the name of a local: data must be utf8(text) for some str `text`
+        d = z3.simplify(data)
+        text = None
+        if z3.is_app(d) and d.decl().name() == "bytes" and z3.is_app(d.arg(0)) and d.arg(0).decl().name() == "utf8_enc":
+            text = d.arg(0).arg(0)
+        if text is None or m is None:
+            I.oblige(f"{nm}.is_the_frame_of_the_message_being_processed", z3.BoolVal(False), watch={"data": data})
             return
-        I.oblige(f"{nm}.line_is_text", V.is_str(js))
-        line = Val.s(z3.simplify(js))
+        line = z3.simplify(z3.SubString(text, 0, z3.Length(text) - 1))
+        parts = P._concat_parts(text)
+        if parts and len(parts) >= 2 and z3.eq(z3.simplify(parts[-1]), z3.simplify(NL)):
+            line = z3.simplify(z3.Concat(*parts[:-1])) if len(parts) > 2 else parts[0]
         watch = {"message": m, "line": V.VStr(line)}
         I.oblige(f"{nm}.is_exactly_one_newline_terminated_utf8_line",
-                 data == V.VBytes(P.utf8_enc(z3.Concat(line, NL))), watch=watch)
+                 z3.And(z3.SuffixOf(NL, text), text == z3.Concat(line, NL)), watch=watch)
         I.oblige(f"{nm}.no_raw_line_break_inside_the_line", z3.Not(z3.Contains(line, NL)), watch=watch)
         I.oblige(f"{nm}.line_is_the_json_text_of_the_message", self.spec_line(I, m, line), watch=watch)
         I.oblige(f"{nm}.at_most_one_line_per_message", z3.BoolVal(I.ghost["writes_this_iteration"] <= 1))
@@ -183,5 +186,9 @@ class C06(Check):
     def replay(self, name, model, rec):
         return None
 
+
+    def bounded_stand_in(self, tier, undecided):
+        from checks import native
+        return native.stand_in(['C06.', 'C17.'], tier, undecided)
 
 CHECK = C06()
